@@ -217,6 +217,100 @@ def job_sequences(first, oi, maxlen):
     return acc
 
 
+def canon_ids(evs):
+    """Envelopes with every id replaced by the rank of its first appearance (ids of interleaved sources are not a constant shift)."""
+    seen = {}
+
+    def name(v):
+        return seen.setdefault(v, '#%d' % len(seen))
+
+    def walk(o):
+        if isinstance(o, dict):
+            return {k: (name(v) if k in ('id', 'astNodeId') and isinstance(v, str) else [name(x) for x in v] if k == 'astNodeIds' else walk(v)) for k, v in o.items()}
+        if isinstance(o, list):
+            return [walk(v) for v in o]
+        return o
+    return walk(evs)
+
+
+def interleavings(n, m, max_switches):
+    """Words over {0, 1} with n zeros and m ones and at most max_switches changes of letter."""
+    def rec(a, b, last, sw):
+        if a == 0 and b == 0:
+            yield ()
+            return
+        for x, left in ((0, a), (1, b)):
+            if not left:
+                continue
+            s2 = sw + (1 if last is not None and last != x else 0)
+            if s2 > max_switches:
+                continue
+            for rest in rec(a - (x == 0), b - (x == 1), x, s2):
+                yield (x,) + rest
+    return rec(n, m, None, 0)
+
+
+@worker
+def job_interleaved(i, oi, max_switches):
+    """Two enum() generators of ONE GherkinEvents drawn alternately in every order (bounded number of switches): what each yields is
+    what it yields alone, up to the numbering of ids; all ids handed out are distinct."""
+    import copy
+    acc = Acc()
+    opts = OPTS[oi]
+    mk = lambda k: {'source': {'uri': POOL[k][0], 'data': POOL[k][1], 'mediaType': 'text/x.cucumber.gherkin+plain'}}  # noqa: E731
+    solos = {k: solo(k, opts) for k in range(len(POOL))}
+    word = None
+    for j in range(len(POOL)):
+        if solos[i][0] != 'ok' or solos[j][0] != 'ok':
+            continue
+        la, lb = len(solos[i][1]) + 1, len(solos[j][1]) + 1
+        for word in interleavings(la, lb, max_switches):
+            case = {'kind': 'interleaved', 'sources': [i, j], 'options': list(opts), 'schedule': list(word)}
+            acc.n += 1
+            acc.validated += 1
+            acc.nontrivial += 1
+            ge = GherkinEvents(GherkinEvents.Options(print_source=opts[0], print_ast=opts[1], print_pickles=opts[2]))
+            gens = [ge.enum(mk(i)), ge.enum(mk(j))]
+            out = [[], []]
+            try:
+                for x in word:
+                    try:
+                        out[x].append(copy.deepcopy(next(gens[x])))
+                    except StopIteration:
+                        pass
+            except Exception as e:  # noqa: BLE001
+                acc.violation('stream-exception', case, 'enum raised %s: %s' % (type(e).__name__, e))
+                continue
+            acc.states.add((len(out[0]), len(out[1]), opts))
+            acc.trans.add((word[:3], opts))
+            for x, k in ((0, i), (1, j)):
+                if canon_ids(out[x]) != canon_ids(solos[k][1]):
+                    acc.violation('source-independence', case, 'envelopes of source %d drawn alternately with source %d (schedule %s) are not what it yields alone' % (k, (j, i)[x], ''.join(map(str, word))),
+                                  observed=str(out[x])[:300], expected=str(solos[k][1])[:300])
+                    break
+            ids = []
+            for x in (0, 1):
+                for e in out[x]:
+                    if 'gherkinDocument' in e or 'pickle' in e:
+                        ids += [v for v in _own_ids(e)]
+            if len(ids) != len(set(ids)):
+                acc.violation('source-independence', case, 'ids handed out to two sources drawn alternately are not distinct')
+    acc.sample({'sources': [POOL[i][0], POOL[-1][0]], 'options': list(opts), 'schedule': list(word or ())})
+    return acc
+
+
+def _own_ids(o):
+    if isinstance(o, dict):
+        for k, v in o.items():
+            if k == 'id' and isinstance(v, str):
+                yield v
+            else:
+                yield from _own_ids(v)
+    elif isinstance(o, list):
+        for v in o:
+            yield from _own_ids(v)
+
+
 def run_script(modname, argv):
     """Run python/scripts/<modname>.main() in-process with the given argv; returns printed text."""
     import contextlib
@@ -241,6 +335,22 @@ def run_script(modname, argv):
     return buf.getvalue()
 
 
+def output_lines(out, acc, case):
+    """The script's standard output: one JSON envelope per line and nothing else (no blank line, no text after the last newline)."""
+    lines = out.split('\n')
+    if lines[-1] != '':
+        acc.violation('script-output-lines', case, 'generate_events output does not end with a line break: %r' % out[-60:])
+    got = []
+    for n, l in enumerate(lines[:-1], 1):
+        try:
+            e = json.loads(l)
+        except ValueError:
+            acc.violation('script-output-lines', case, 'generate_events output line %d of %d is not a JSON envelope: %r' % (n, len(lines) - 1, l[:80]))
+            continue
+        got.append(e)
+    return got
+
+
 @worker
 def job_script(paths):
     """scripts/generate_events.py on corpus files must print exactly the corpus ndjson lines."""
@@ -261,7 +371,7 @@ def job_script(paths):
             except BaseException as e:  # noqa: BLE001
                 acc.violation('script-exception', case, 'generate_events raised %s: %s' % (type(e).__name__, e))
                 continue
-            got = [json.loads(l) for l in out.splitlines() if l.strip()]
+            got = output_lines(out, acc, case)
             want = [json.loads(l) for l in open(path + ext, encoding='utf8') if l.strip()]
             if got != want:
                 acc.violation('script-vs-corpus', case, 'generate_events %s prints envelopes that differ from %s' % (' '.join(flags), os.path.basename(path) + ext))
@@ -335,6 +445,8 @@ def job_script_multi(flags):
     acc = Acc()
     good, bad = R.corpus()
     groups = [[good[0], good[1]], [good[2], bad[0], good[3]], [bad[1], bad[2]], [good[4], good[4]], [good[5], good[6], good[7], bad[3]]]
+    nopickle = [p for p in good if os.path.getsize(p + '.pickles.ndjson') == 0]
+    groups += [[p] for p in nopickle[:3]] + [nopickle[:2] + [good[0]] + nopickle[2:], [good[1], nopickle[0], bad[0], nopickle[-1]]]
     for paths in groups:
         rels = ['../testdata/%s/%s' % (os.path.basename(os.path.dirname(p)), os.path.basename(p)) for p in paths]
         acc.n += 1
@@ -346,7 +458,7 @@ def job_script_multi(flags):
         except BaseException as e:  # noqa: BLE001
             acc.violation('script-exception', case, 'generate_events raised %s: %s' % (type(e).__name__, e))
             continue
-        got = [json.loads(l) for l in out.splitlines() if l.strip()]
+        got = output_lines(out, acc, case)
         opts = ('--no-source' not in flags, '--no-ast' not in flags, '--no-pickles' not in flags)
         ge = GherkinEvents(GherkinEvents.Options(print_source=opts[0], print_ast=opts[1], print_pickles=opts[2]))
         want = []
@@ -372,17 +484,31 @@ def run(ctx):
     good, bad = R.corpus()
     files = good + bad
     ctx.level('generate_events script on the corpus', [job_script.job(files[i:i + 4]) for i in range(0, len(files), 4)])
-    ctx.level('generate_events script with several paths', [job_script_multi.job(f) for f in ([], ['--no-source'], ['--no-pickles'], ['--no-source', '--no-ast'], ['--no-source', '--no-pickles'])])
+    ctx.level('generate_events script with several paths', [job_script_multi.job([f for f, on in zip(('--no-source', '--no-ast', '--no-pickles'), o) if not on]) for o in OPTS])
     items = POOL + FILE_EXTRA
     ctx.level('source_event on files', [job_files.job(items[i:i + 5]) for i in range(0, len(items), 5)])
     n = ctx.pick(3, 4)
     ctx.level('sequences <= %d' % n, [job_sequences.job(i, o, n) for i in range(len(POOL)) for o in range(len(OPTS))])
+    sw = ctx.pick(2, 4)
+    ctx.level('two sources drawn alternately from one stream, <= %d switches' % sw, [job_interleaved.job(i, o, sw) for i in range(len(POOL)) for o in range(len(OPTS))])
     # the command-line script prints the same envelopes
     # (scripts/generate_events.py is a thin loop over SourceEvents + GherkinEvents.enum + json.dumps)
 
 
 def replay(case):
     acc = Acc()
+    kind = case.get('kind')
+    if kind in ('script', 'script-multi', 'interleaved', 'file', 'files'):
+        if kind == 'script':
+            acc = job_script([case['path']])
+        elif kind == 'script-multi':
+            acc = job_script_multi(list(case['flags']))
+        elif kind == 'interleaved':
+            sw = sum(1 for a, b in zip(case['schedule'], case['schedule'][1:]) if a != b)
+            acc = job_interleaved(case['sources'][0], OPTS.index(tuple(case['options'])), sw)
+        else:
+            acc = job_files(POOL + FILE_EXTRA)
+        return [v[0]['message'] for v in acc.viol.values()]
     opts = tuple(case['options'])
     ge = GherkinEvents(GherkinEvents.Options(print_source=opts[0], print_ast=opts[1], print_pickles=opts[2]))
     for pos, i in enumerate(case['sources']):
